@@ -120,6 +120,7 @@ Section Denote.
                       (fun m d => match lv, r with
                                   | LRepr, URKinded => d
                                   | LRepr, URKeyed => DMap [(fst m, d)]
+                                  | LRepr, URStringprefix => match d with DString x => DString (fst m ++ x) | _ => DNull end
                                   | LType, _ => DMap [(sty_name (snd m), d)]
                                   end) ms gs
         | _ => DNull
@@ -203,6 +204,7 @@ Definition repr_kind (t : sty) : option bytes :=
   | TStruct _ _ SRTuple => Some (kind_name (DList []))
   | TUnion _ _ URKeyed => Some (kind_name (DMap []))
   | TUnion _ _ URKinded => None
+  | TUnion _ _ URStringprefix => Some (kind_name (DString []))
   | TEnum _ _ ERString => Some (kind_name (DString []))
   | TEnum _ _ ERInt => Some (kind_name (DInt 0))
   end.
@@ -251,7 +253,11 @@ Fixpoint bindable (t : sty) (s : shape) {struct t} : bool :=
       | SStruct _ ss =>
           members_bindable (fun m => bindable (snd m)) ms ss
           && names_nodup (map (fun m => sty_name (snd m)) ms) && names_nodup (map fst ms)
-          && match r with URKinded => kinded_wf ms | URKeyed => true end
+          && match r with
+             | URKinded => kinded_wf ms
+             | URKeyed => true
+             | URStringprefix => false       (* modelled and tied by the correspondence run; outside the theorems *)
+             end
       | _ => false
       end
   end.
@@ -470,6 +476,8 @@ Section Fits.
                     with_member false (kind_name d)
                       (fun i m => fits (snd m) (deref1 (nth_shape i ss)) d) false ms O
                 end
+            | LRepr, URStringprefix, DString x =>
+                with_prefix x (fun i m => fits (snd m) (deref1 (nth_shape i ss)) (DString (skipn (length (fst m)) x))) false ms O
             | LRepr, URKeyed, DMap [(k, v)] =>
                 with_member false k (fun i m => fits_child (fits (snd m)) false (nth_shape i ss) v) false ms O
             | LType, _, DMap [(k, v)] =>
